@@ -48,10 +48,11 @@ func (c *canonizer) typ(h ir.TypeHandle, depth int) any {
 	if v, ok := c.types[h]; ok {
 		return v
 	}
-	if int(h) >= len(c.m.Types) || depth > 12 {
+	if int(h) >= len(c.m.Types) || depth > 40 {
 		return map[string]any{"_t": "Type", "oob": int(h)}
 	}
 	t := &c.m.Types[h]
+	c.types[h] = map[string]any{"_t": "Type", "recursive": int(h)}
 	r := map[string]any{"_t": "Type", "Name": t.Name, "Inner": c.val(reflect.ValueOf(t.Inner), depth+1)}
 	c.types[h] = r
 	return r
@@ -82,6 +83,16 @@ func (c *canonizer) expr(h ir.ExpressionHandle, depth int) any {
 		if o, ok := c.ord[h]; ok {
 			m["#"] = o
 		}
+		if int(h) < len(c.fn.ExpressionTypes) {
+			tr := c.fn.ExpressionTypes[h]
+			if tr.Handle != nil && int(*tr.Handle) < len(c.m.Types) {
+				m["ty"] = c.val(reflect.ValueOf(c.m.Types[*tr.Handle].Inner), depth+1)
+			} else if tr.Value != nil {
+				m["ty"] = c.val(reflect.ValueOf(tr.Value), depth+1)
+			} else {
+				m["ty"] = nil
+			}
+		}
 	}
 	return r
 }
@@ -110,14 +121,14 @@ func (c *canonizer) val(v reflect.Value, depth int) any {
 	case tExprH:
 		return c.expr(ir.ExpressionHandle(v.Uint()), depth+1)
 	case tTypeH:
-		return c.typ(ir.TypeHandle(v.Uint()), depth+1)
+		return c.typ(ir.TypeHandle(v.Uint()), 0)
 	case tConstH:
 		h := int(v.Uint())
 		if h >= len(c.m.Constants) {
 			return map[string]any{"_t": "oob-constant"}
 		}
 		k := &c.m.Constants[h]
-		return map[string]any{"_t": "Const", "Name": k.Name, "Type": c.typ(k.Type, depth+1), "Init": c.globalExpr(k.Init, depth+1)}
+		return map[string]any{"_t": "Const", "Name": k.Name, "Type": c.typ(k.Type, 0), "Init": c.globalExpr(k.Init, depth+1)}
 	case tOvrH:
 		h := int(v.Uint())
 		if h >= len(c.m.Overrides) {
@@ -155,6 +166,16 @@ func (c *canonizer) val(v reflect.Value, depth int) any {
 		}
 		return c.val(v.Elem(), depth+1)
 	case reflect.Struct:
+		if ec, ok := v.Interface().(ir.ExprConstant); ok && int(ec.Constant) < len(c.m.Constants) {
+			// a constant whose initialiser is a literal IS that literal (the front end inlines
+			// some uses of a `const`, ProcessOverrides keeps the reference)
+			k := &c.m.Constants[ec.Constant]
+			if int(k.Init) < len(c.m.GlobalExpressions) {
+				if lit, ok := c.m.GlobalExpressions[k.Init].Kind.(ir.Literal); ok {
+					return c.val(reflect.ValueOf(lit), depth+1)
+				}
+			}
+		}
 		m := map[string]any{"_t": t.Name()}
 		for i := 0; i < t.NumField(); i++ {
 			f := t.Field(i)
@@ -322,4 +343,162 @@ func canonModule(m *ir.Module) (res any) {
 		gl = append(gl, g)
 	}
 	return map[string]any{"functions": out, "globals": gl}
+}
+
+// ---------------------------------------------------------------- comparison (done here: the canonical forms are large)
+
+func briefCanon(x any, depth int) string {
+	switch v := x.(type) {
+	case map[string]any:
+		t, _ := v["_t"].(string)
+		if t == "Type" || depth > 3 {
+			if t == "" {
+				return "{..}"
+			}
+			return t
+		}
+		keys := make([]string, 0, len(v))
+		for k := range v {
+			if k != "_t" && k != "ty" {
+				keys = append(keys, k)
+			}
+		}
+		sort.Strings(keys)
+		s := t + "("
+		for i, k := range keys {
+			if i > 0 {
+				s += ", "
+			}
+			s += k + "=" + briefCanon(v[k], depth+1)
+		}
+		return s + ")"
+	case []any:
+		s := "["
+		for i, e := range v {
+			if i >= 6 {
+				s += ", ..."
+				break
+			}
+			if i > 0 {
+				s += ", "
+			}
+			s += briefCanon(e, depth+1)
+		}
+		return s + "]"
+	}
+	return fmt.Sprint(x)
+}
+
+// first difference of two canonical forms: path of struct type.field names (no indices) and a description
+func canonDiff(a, b any, path string) (string, string, bool) {
+	switch x := a.(type) {
+	case map[string]any:
+		y, ok := b.(map[string]any)
+		if !ok {
+			return path, briefCanon(a, 0) + " vs " + briefCanon(b, 0), true
+		}
+		tn, _ := x["_t"].(string)
+		tm, _ := y["_t"].(string)
+		if tn != tm {
+			return path, briefCanon(a, 0) + " vs " + briefCanon(b, 0), true
+		}
+		keys := make([]string, 0, len(x))
+		for k := range x {
+			keys = append(keys, k)
+		}
+		for k := range y {
+			if _, ok := x[k]; !ok {
+				keys = append(keys, k)
+			}
+		}
+		sort.Strings(keys)
+		for _, k := range keys {
+			xv, okx := x[k]
+			yv, oky := y[k]
+			if !okx || !oky {
+				return path + "/" + tn + "." + k, "field missing", true
+			}
+			if p, d, diff := canonDiff(xv, yv, path+"/"+tn+"."+k); diff {
+				return p, d, true
+			}
+		}
+		return "", "", false
+	case []any:
+		y, ok := b.([]any)
+		if !ok {
+			return path, briefCanon(a, 0) + " vs " + briefCanon(b, 0), true
+		}
+		for i := range x {
+			if i >= len(y) {
+				break
+			}
+			if p, d, diff := canonDiff(x[i], y[i], path); diff {
+				return p, d, true
+			}
+		}
+		if len(x) != len(y) {
+			return path + "[len]", fmt.Sprintf("%d vs %d elements", len(x), len(y)), true
+		}
+		return "", "", false
+	default:
+		if !reflect.DeepEqual(a, b) {
+			return path, briefCanon(a, 0) + " vs " + briefCanon(b, 0), true
+		}
+		return "", "", false
+	}
+}
+
+func stripEmits(c any) any {
+	switch v := c.(type) {
+	case map[string]any:
+		out := make(map[string]any, len(v))
+		for k, e := range v {
+			if k == "Unemitted" {
+				continue
+			}
+			out[k] = stripEmits(e)
+		}
+		return out
+	case []any:
+		out := make([]any, 0, len(v))
+		for _, e := range v {
+			if m, ok := e.(map[string]any); ok {
+				if t, _ := m["_t"].(string); t == "StmtEmit" {
+					continue
+				}
+			}
+			out = append(out, stripEmits(e))
+		}
+		return out
+	}
+	return c
+}
+
+func countUnemitted(c any) int {
+	m, ok := c.(map[string]any)
+	if !ok {
+		return -1
+	}
+	fs, _ := m["functions"].([]any)
+	n := 0
+	for _, f := range fs {
+		if fm, ok := f.(map[string]any); ok {
+			if u, ok := fm["Unemitted"].([]any); ok {
+				n += len(u)
+			}
+		}
+	}
+	return n
+}
+
+// compareCanon: reference (substituted program) vs a resolved module
+func compareCanon(ref, got any) map[string]any {
+	out := map[string]any{"unemitted_ref": countUnemitted(ref), "unemitted": countUnemitted(got)}
+	if p, d, diff := canonDiff(ref, got, ""); diff {
+		out["diff"] = []string{p, d}
+	}
+	if p, d, diff := canonDiff(stripEmits(ref), stripEmits(got), ""); diff {
+		out["diff_noemit"] = []string{p, d}
+	}
+	return out
 }
